@@ -15,6 +15,7 @@ So what Coq checks here is the COMPOSITION performed by compute_form_data: stage
 re-expansion of derivatives, Jacobian cancellation, component-tensor removal, real-mode node removal."""
 
 import itertools
+import math
 import random
 
 import ufl
@@ -575,26 +576,65 @@ class FrameEnv(pyden.Env):
         g = g() if callable(g) else g
         super().__init__(nv=g, order=2, seed=seed, complex_values=complex_values)
         self.g = g
+        td = m.topological_dimension
+        td = td() if callable(td) else td
+        self.td = td
         rng = self.rng
-        while True:
-            J = [[pyden.Fraction(rng.randint(-3, 3), rng.choice([1, 2])) for _ in range(g)] for _ in range(g)]
-            d = pyden.det_f(g, lambda i, j: J[i][j])
-            if d != 0:
-                break
-        self.J, self.detJ = J, d
-        self.K = [[pyden.cof_f(g, lambda i, j: J[i][j], j, i) / d for j in range(g)] for i in range(g)]
+
+        def cellmap():
+            """random affine cell map: J (g x td, full rank), K = (pseudo-)inverse, detJ = (pseudo-)determinant"""
+            while True:
+                J = [[pyden.Fraction(rng.randint(-3, 3), rng.choice([1, 2])) for _ in range(td)] for _ in range(g)]
+                G = [[sum(J[r][a] * J[r][b] for r in range(g)) for b in range(td)] for a in range(td)]
+                dG = pyden.det_f(td, lambda i, j: G[i][j])
+                if dG != 0:
+                    break
+            Gi = [[pyden.cof_f(td, lambda i, j: G[i][j], j, i) / dG for j in range(td)] for i in range(td)]
+            K = [[sum(Gi[a][b] * J[r][b] for b in range(td)) for r in range(g)] for a in range(td)]
+            if td == g:
+                d = pyden.det_f(g, lambda i, j: J[i][j])
+            else:
+                d = math.sqrt(float(dG))
+            return J, K, d
+        J, K, d = cellmap()
+        self.J, self.K, self.detJ = J, K, d
         # interior facets: each side has its own cell map (side None keeps the first one)
-        self.Js, self.Ks, self.dets = {None: J, "+": J}, {None: self.K, "+": self.K}, {None: d, "+": d}
-        while True:
-            J2 = [[pyden.Fraction(rng.randint(-3, 3), rng.choice([1, 2])) for _ in range(g)] for _ in range(g)]
-            d2 = pyden.det_f(g, lambda i, j: J2[i][j])
-            if d2 != 0:
-                break
-        self.Js["-"], self.dets["-"] = J2, d2
-        self.Ks["-"] = [[pyden.cof_f(g, lambda i, j: J2[i][j], j, i) / d2 for j in range(g)] for i in range(g)]
+        self.Js, self.Ks, self.dets = {None: J, "+": J}, {None: K, "+": K}, {None: d, "+": d}
+        self.Js["-"], self.Ks["-"], self.dets["-"] = cellmap()
 
     def side_dependent(self, t):
         return not single_valued(t)
+
+    reference_value = True      # pyden: ReferenceValue nodes are evaluated by value() below
+
+    def value(self, t, comp, side):
+        """reference value of a form argument = the inverse of its declared push-forward applied to the
+        physical field (identity / covariant / contravariant Piola leaves; anything else is unsupported)"""
+        if isinstance(t, C.ReferenceValue):
+            from ufl.pullback import ContravariantPiola, CovariantPiola, IdentityPullback
+            f = t.ufl_operands[0]
+            el = f.ufl_element()
+            pb = el.pullback
+            if isinstance(pb, IdentityPullback):
+                return super().value(f, comp, side)
+            if el.sub_elements or not isinstance(pb, (CovariantPiola, ContravariantPiola)):
+                raise pyden.Unsupported("reference value of a non-leaf / other pullback")
+            lead, j = tuple(comp[:-1]), comp[-1]
+            tot = self.zero()
+            for i in range(self.g):
+                fi = super().value(f, lead + (i,), side)
+                if isinstance(pb, CovariantPiola):      # f_i = K[j,i] r_j   =>  r_j = J[i,j] f_i
+                    tot = tot + fi * self.Js[side][i][j]
+                else:                                   # f_i = J[i,j] r_j / detJ  =>  r_j = detJ K[j,i] f_i
+                    tot = tot + fi * (self.dets[side] * self.Ks[side][j][i])
+            return tot
+        if isinstance(t, C.GeometricQuantity) and getattr(self, "t_" + type(t).__name__, None) is None \
+                and not single_valued(t):
+            # a derived geometric quantity has the value of its lowered form (reference-cell data stay free)
+            low = apply_geometry_lowering(t)
+            if low != t:
+                return pyden._ev(low, self, {}, tuple(comp), side, {})
+        return super().value(t, comp, side)
 
     def t_Jacobian(self, t, c, side):
         return self.const(self.Js[side][c[0]][c[1]])
@@ -631,8 +671,7 @@ def numeric_check(form, opts, trials=6, seed=0, out=None, pres=None, complex_mod
         gd = gd() if callable(gd) else gd
         td = m.topological_dimension
         td = td() if callable(td) else td
-        if td != gd:
-            return None
+        manifold = td != gd
         if out is None:
             fd = compute_form_data(form, complex_mode=complex_mode, **opts)
             out = fd.integral_data[0].integrals[0].integrand()
@@ -643,10 +682,12 @@ def numeric_check(form, opts, trials=6, seed=0, out=None, pres=None, complex_mod
             return None
         if itype == "interior_facet" and opts.get("do_apply_geometry_lowering"):
             return None     # would need a geometrically consistent pair of cells; search the unlowered option sets
-        from ufl.pullback import IdentityPullback
-        if any(not isinstance(a_.ufl_element().pullback, IdentityPullback)
-               for a_ in list(form.arguments()) + list(form.coefficients())):
-            return None
+        from ufl.pullback import ContravariantPiola, CovariantPiola, IdentityPullback
+        for a_ in list(form.arguments()) + list(form.coefficients()):
+            el_ = a_.ufl_element()
+            if not (isinstance(el_.pullback, IdentityPullback) or
+                    (not el_.sub_elements and isinstance(el_.pullback, (CovariantPiola, ContravariantPiola)))):
+                return None
         rng = random.Random(seed)
         for t in range(trials):
             env = FrameEnv(m, rng.randrange(10**9), complex_values=complex_mode)
@@ -655,6 +696,10 @@ def numeric_check(form, opts, trials=6, seed=0, out=None, pres=None, complex_mod
             for p_ in pres:
                 v_ = pyden.evaluate(p_, env)
                 b = v_ if b is None else b + v_
+            if manifold and (itype != "cell" or any(
+                    isinstance(n_, (C.Grad, C.ReferenceGrad, C.Div, C.Curl, C.NablaGrad, C.NablaDiv))
+                    for e_ in [out] + list(pres) for n_ in unique_pre_traversal(e_))):
+                return None     # on an immersed cell the jets know the full, not the tangential, gradient
             if opts.get("do_apply_integral_scaling"):
                 if itype == "cell":
                     b = b * abs(env.detJ) * pyden.Fraction(1, 3)
